@@ -99,8 +99,9 @@ def check_model(case):
         except refboc.RefBocError as e:
             import re
             return Fail('serialised/nonconforming/' + re.sub(r'[0-9]+', '#', str(e))[:50], f'route={route}: {e}')
-    # parse a reference-encoded BoC of the root
-    boc = refboc.encode([cells[-1]], has_crc=True)
+    # parse a reference-encoded BoC of the root (every other case: with the hashes of all cells stored in the bag)
+    nn = rc.count_distinct(cells[-1])
+    boc = refboc.encode([cells[-1]], has_crc=True, with_hashes=set(range(nn)) if len(case['spec']) % 2 else ())
     ok, parsed = call(Cell.one_from_boc, boc)
     if not ok:
         return Fail(f'parse-raises/{type(parsed).__name__}:{str(parsed)[:40]}', f'{exc_sig(parsed)} boc={boc.hex()[:300]}')
@@ -118,6 +119,49 @@ def check_model(case):
             return f
         stack.extend(zip(r.refs, l.refs))
     return None
+
+
+def check_twin_bag(case):
+    """one bag holding an exotic cell AND an ordinary cell with exactly its bits and children (both orders, as children of one
+    root and as two roots): each comes back as what it was - kind, mask, hashes"""
+    from pytoniq_core.boc.cell import Cell
+    leafs = [rc.RCell('1011', []), rc.RCell('0', [])]
+    kind = case['kind']
+    if kind == 'library':
+        ex = rc.library_ref(b'\x42' * 32)
+    elif kind == 'mproof':
+        ex = rc.merkle_proof(leafs[0])
+    elif kind == 'mupdate':
+        ex = rc.merkle_update(leafs[0], leafs[1])
+    else:
+        n = bin(case['mask']).count('1')
+        ex = rc.pruned_raw(case['mask'], [bytes([i + 1]) * 32 for i in range(n)], [i for i in range(n)])
+    twin = rc.RCell(ex.bits, ex.refs, False)
+    pair = [ex, twin] if case['first'] == 'exotic' else [twin, ex]
+    bags = [('children-of-one-root', refboc.encode([rc.RCell('1', pair, False)], has_crc=True), lambda roots: roots[0].refs),
+            ('two-roots', refboc.encode(pair, has_idx=True), lambda roots: roots)]
+    for name, boc, pick in bags:
+        ok, roots = call(Cell.from_boc, boc)
+        if not ok:
+            return Fail(f'twin-bag/parse-raises/{kind}/{type(roots).__name__}', f'{name}: {exc_sig(roots)}: {roots!r}')
+        got = list(pick(roots))
+        if len(got) != 2:
+            return Fail(f'twin-bag/shape/{kind}', f'{name}: {len(got)} cells')
+        for r, l in zip(pair, got):
+            if l.type_ != r.type:
+                return Fail(f'twin-bag/type-differs/{kind}', f'{name}, {case["first"]} first: a cell of type {r.type} came back as type {l.type_}')
+            f = cmp_node(r, l, f'{name}, {case["first"]} first')
+            if f:
+                return Fail('twin-bag/' + f.signature, f.detail)
+    return None
+
+
+def enum_twin_bags(tier):
+    for first in ('exotic', 'ordinary'):
+        for kind in ('library', 'mproof', 'mupdate'):
+            yield {'kind': kind, 'first': first}
+        for m in range(1, 8):
+            yield {'kind': 'pruned', 'mask': m, 'first': first}
 
 
 # -- metamorphic ------------------------------------------------------------------------------------------
@@ -334,6 +378,9 @@ def nt(case):
 SUBCHECKS = [
     Sub('pruned-masks-x-parents', check_model, enum=enum_pruned_parents, classify=classify, nontrivial=nt, shards=(16, 16),
         exhaustive=True, note='every raw pruned mask 1..7 x sibling mask 0..7 x 3 depth patterns x 7 parent shapes x 2 routes'),
+    Sub('exotic-beside-ordinary-twin-in-one-bag', check_twin_bag, enum=enum_twin_bags, shards=(2, 2), exhaustive=True,
+        classify=lambda c: ['kind=' + c['kind']], nontrivial=lambda c: True,
+        note='library / Merkle proof / Merkle update / pruned (masks 1..7) cell and the ordinary cell with the same bits and children in one bag'),
     Sub('exotic-model', check_model, strategy=strat_model, classify=classify, nontrivial=nt, n=(1500, 40000), shards=(16, 32)),
     Sub('pruning-metamorphic', check_meta, strategy=lambda tier: st_meta(), classify=classify, nontrivial=nt,
         n=(1500, 40000), shards=(16, 32)),
